@@ -10,6 +10,7 @@ from collections import namedtuple
 from shutil import which
 from typing import TYPE_CHECKING, Any
 
+from jedi import _verif
 from jedi.cache import memoize_method, time_cache
 from jedi.inference.compiled.subprocess import CompiledSubprocess, \
     InferenceStateSameProcess, InferenceStateSubprocess
@@ -77,7 +78,12 @@ class Environment(_BaseEnvironment):
 
     def _get_subprocess(self):
         if self._subprocess is not None and not self._subprocess.is_crashed:
+            if _verif.ON:
+                _verif.trace('GetSubprocess', reuse=True, sub=id(self._subprocess))
             return self._subprocess
+        if _verif.ON:
+            _verif.trace('GetSubprocess', reuse=False,
+                         old=None if self._subprocess is None else id(self._subprocess))
 
         try:
             self._subprocess = CompiledSubprocess(self._start_executable,
